@@ -42,15 +42,20 @@ def check(rec, kind, idx, rng, tier):
     alpha = int(rng.choice([2, 3, 5, 50]))
     as_int = rng.random() < 0.35
     names = ['v%d' % i for i in range(n)]
+    # nearly-equal values only in all-float64 datasets: with mixed float32/float64 layers NumPy compares a float32 reference
+    # with the other layers' Python floats in float32 (NEP 50), which is outside what the statement pins down
+    near_equal = (not as_int) and rng.random() < 0.25
     layers, layouts = {}, {}
     for nm in names:
         a = rng.integers(0, alpha, size=(H, W)).astype('float64')
         if not as_int and rng.random() < 0.5:
             a = a + rng.choice([0.0, 0.5, 0.25], size=(H, W))
+        if near_equal:
+            a = a + rng.choice([0.0, 1e-6, -1e-6, 2e-7], size=(H, W))          # nearly equal, not equal
         if not as_int and rng.random() < 0.5:
             m = rng.random((H, W)) < rng.choice([0.05, 0.2, 0.5])
             a[m] = np.nan
-        dt = str(rng.choice(['int32', 'int64', 'uint8'])) if as_int else str(rng.choice(['float64', 'float64', 'float32']))
+        dt = str(rng.choice(['int32', 'int64', 'uint8'])) if as_int else ('float64' if near_equal else str(rng.choice(['float64', 'float64', 'float32'])))
         lay = str(rng.choice(['C', 'C', 'F', 'strided', 'neg']))
         layers[nm] = gen.layout(a.astype(dt), lay)
         layouts[nm] = lay
